@@ -50,9 +50,55 @@ func vpC12Health(maxThr int) {
 	if at >= 0 {
 		vpAssert("C12.exactly-at-n", s.cb.demotes == 1 && !s.e.IsLeader() && len(hc.verdicts) == at+1)
 		vpAssert("C12.follower-after", s.e.Status().State == StateFollower)
+		// ... and can be re-elected: its record is removed (the health path does not refresh it any more),
+		// the checker has recovered
+		hc.forceHealthy = true
+		s.kv.faultLeft = 0
+		s.st.write("env:cleanup", "delete", nil, true, 0)
+		time.Sleep(tm.H)
+		vpQuiesce()
+		vpAssert("C12.re-elected-after", s.e.IsLeader() && s.cb.promotes == 2)
 	} else {
 		vpAssert("C12.never-before-n", s.cb.demotes == 0 && s.e.IsLeader())
 	}
+	_ = s.e.Stop()
+}
+
+// vpH_C12_T_slow_checker: the checker may ignore its context and take 150 ms to answer (explorer's choice
+// per tick, like the verdict): what counts is the verdict it returns — slow healthy answers never demote and
+// restart the count, thresholds 1 and 2.
+func vpH_C12_T_slow_checker() {
+	thr := 1 + vpChoose("threshold", 2)
+	hc := &vpHealth{maySlow: true}
+	tm := vpTiming{time.Second, 3 * time.Second}
+	s := vpLeadingInstance(tm, 0, func(cfg *ElectionConfig) {
+		cfg.HealthChecker = hc
+		cfg.MaxConsecutiveFailures = thr
+	})
+	s.st.ttl = 0
+	select {
+	case <-s.demoted:
+	case <-time.After(time.Duration(thr+1)*tm.H + tm.H/2):
+	}
+	vpQuiesce()
+	vpCover("C12.slow-checker")
+	run, at := 0, -1
+	for i, v := range hc.verdicts {
+		if v {
+			run = 0
+		} else {
+			run++
+			if run >= thr && at < 0 {
+				at = i
+			}
+		}
+	}
+	if at >= 0 {
+		vpAssert("C12.exactly-at-n", s.cb.demotes == 1 && !s.e.IsLeader() && len(hc.verdicts) == at+1)
+	} else {
+		vpAssert("C12.never-before-n", s.cb.demotes == 0 && s.e.IsLeader())
+	}
+	_ = s.e.Stop()
 }
 
 // vpH_C12_T_terms: two consecutive terms of one instance: the first term ends (Stop, record released)
